@@ -1,10 +1,10 @@
 SPECIFICATION SpecH
 CONSTANTS
   Exts <- MCExts
-  Vals = {1, 2}
+  Vals = {0, 1}
   Margin = 1
   MaxSlices = 3
-  Sparse = FALSE
+  Sparse = TRUE
   K = 5
 INVARIANTS TypeOK LastAgrees AgreesWithHistory
 CONSTRAINT HistBound
